@@ -17,12 +17,12 @@ import YaegiVerif.Generated.C09
   the operations and host calls goroutine `i` has executed.
 
   State after the repairs of round 2 (c403bf5 F09, cc65000 F26, 1578873 F09-2, d26dd9e F09-1, ba001d8, 50c4f88,
-  4a41b28 F10): the clauses the domain of the main theorem had for F09, F26 and F09-2 are gone — the theorem holds
-  for cancellations inside every entry of the run list, for functions compiled by a plain `Eval` and for closures
-  stored by earlier evaluations. One clause is new (F09-3, introduced by 4a41b28): a call of a function value
-  takes the id of the ROOT frame when its frame is made, and `Execute` refreshes that id when it returns; a call
-  (outside the goroutine of `Execute`) or a `go` statement of a function value that is in flight at the
-  cancellation and makes its frame after `Execute` has returned runs as part of the new run.
+  4a41b28 F10) and the epoch repair of round 4 (dc95f3e, 2db9fe7): the clauses the domain of the main theorem had for
+  F09, F26, F09-2 and F09-3 are gone. A call of a function value gets the interpreter's CURRENT id when its frame is
+  made, unless the evaluation that made the function value (its epoch) has been cancelled — then an id the
+  interpreter never has. What is left, knowingly, is F09-5: a function value of an EARLIER, completed evaluation (or
+  made inside one) whose call or `go` statement is in flight at the cancellation belongs to no cancelled epoch: its
+  frame gets the new id and it runs in full. `Dom` is exactly the absence of that.
 -/
 namespace YaegiVerif.Props.C09
 open YaegiVerif YaegiVerif.RunId YaegiVerif.Proofs.C09
@@ -62,19 +62,26 @@ theorem invariant_all_schedules (id rootId : Nat) (entries : List Entry) (h : ro
 
 /-- a frame made by a call of a declared function (or a `go` statement of one) from a frame with id `c` gets the id
     `c`: callees and spawned goroutines of stale frames are stale -/
-theorem callee_of_stale_is_stale (parent cur root : Nat) :
-    newId (Generated.C09.facts.site .call) parent cur root = parent := by
+theorem callee_of_stale_is_stale (parent cur root : Nat) (dead : Bool) :
+    newId (Generated.C09.facts.site .call) parent cur root dead = parent := by
   rw [runidfacts_tie]; rfl
 
-/-- a frame made by a call of a function value (closure, method value, function handed to the host) gets the id the
-    ROOT frame has at that moment, whatever the frame that made the function value or the call carries -/
-theorem function_value_frame_takes_root_id (s : Site) (hs : s ≠ .call) (parent cur root : Nat) :
-    newId (Generated.C09.facts.site s) parent cur root = root := by
-  rw [runidfacts_tie]; cases s <;> first | rfl | exact absurd rfl hs
+/-- a frame made by a call of a function value (closure, method value, function handed to native code) gets the
+    interpreter's CURRENT id, read when the frame is made — unless the epoch of the function value has been
+    cancelled: then the dead id — whatever the frame that made the function value or the call carries -/
+theorem function_value_frame_current_or_dead (s : Site) (hs : s.kind ≠ .call) (parent cur root : Nat) (dead : Bool) :
+    newId (Generated.C09.facts.site s) parent cur root dead = if dead then 0 else cur := by
+  rw [runidfacts_tie]
+  obtain ⟨k, e, l⟩ := s
+  cases k <;> first | rfl | exact absurd rfl hs
+
+/-- after a `stop()` the dead id is stale for ever, and a function value of the cancelled evaluation is dead -/
+theorem cancelled_epoch_is_dead (σ : St) (hm : σ.marked = true) : deadNow σ false = true := by
+  simp [deadNow, hm]
 
 /-- an entry of the run list gets the id `Execute` stored in the root frame when it started (c403bf5): entries
     started after a cancellation are stale -/
-theorem entry_takes_root_id (cur root : Nat) : newId Generated.C09.facts.entryId root cur root = root := by
+theorem entry_takes_root_id (cur root : Nat) (dead : Bool) : newId Generated.C09.facts.entryId root cur root dead = root := by
   rw [runidfacts_tie]; rfl
 
 /-- a stale frame executes nothing: the guard of `runCfg` fails -/
@@ -89,10 +96,13 @@ theorem blocking_ops_cancellable (k : BlkKind) (c : Bool) : cancellable Generate
   rw [runidfacts_tie]
   cases k <;> cases c <;> rfl
 
-/-- every frame of an evaluation races the done channel of that evaluation: `newFrame` copies the creating frame's,
-    `newCallFrame` takes the root frame's, which `Execute` sets first (1578873) -/
-theorem frames_race_current_done (s : Site) : childCur Generated.C09.facts s true true = true := by
-  rw [runidfacts_tie]; cases s <;> rfl
+/-- every frame of an evaluation races the done channel `stop()` will close: `newFrame` copies the creating frame's,
+    `newCallFrame` takes the interpreter's current one (dc95f3e), which exists from `New` on and is replaced by
+    `stop()` only (2db9fe7) -/
+theorem frames_race_current_done (s : Site) : childCur Generated.C09.facts s true true true = true := by
+  rw [runidfacts_tie]
+  obtain ⟨k, e, l⟩ := s
+  cases k <;> rfl
 
 /-- hence every program is inside the part of the domain that used to exclude F26 and F09-2 -/
 theorem all_cancellable (p : Prog) : p.canc Generated.C09.facts = true := by
@@ -118,11 +128,11 @@ theorem blocked_op_enabled_by_done (σ : St) (i : Nat) (g : G) (k : BlkKind)
 /-! ### the cancellation -/
 
 /-- the domain of the partial theorem, a decidable predicate of the state at the moment of the cancellation: no
-    goroutine is about to make a frame for a call of a function value whose id it will read later than the guard
-    it has passed — no `go` statement of a function value is in flight, no call of a function value is in flight
-    outside the goroutine of `Execute`, no goroutine started by such a `go` statement has still to make its frame
-    (`G.fvPending`). Where the cancellation arrives in the run list, by which kind of evaluation the functions were
-    compiled and which evaluation made the closures that are called no longer matters. -/
+    goroutine is about to make a frame for a call of a function value of an EARLIER, completed evaluation (made by one,
+    or made by a frame of one) — no such call and no such `go` statement is in flight, no goroutine started by such a
+    `go` statement has still to make its frame (`G.fvPending`). Function values of the cancelled evaluation itself, in
+    flight in any goroutine, called by native code at any later time, are inside the domain; so are cancellations in
+    any entry of the run list and functions compiled by a plain `Eval`. -/
 def Dom (F : RunIdFacts) (σ : St) : Bool := σ.gs.all (fun g => !g.fvPending F)
 
 /-- what the property demands of a cancellation in state `σ1` (reached while the call is still watching its
@@ -190,11 +200,11 @@ theorem stops_everything_of {F : RunIdFacts} (hF : Sound F) (id rootId : Nat) (e
     have := ret_stable F post _ hs.1
     exact this.2.trans hs.2
 
-/-- **At most one operation after stop** (partial: `Dom`, the F09-3 window only). For EVERY program — run lists
-    with global initialisers and init functions, functions compiled by a plain `Eval`, closures stored by earlier
-    evaluations —, every schedule before the cancellation, a cancellation at ANY moment at which no call / `go` of a
-    function value is caught between its guard and the making of its frame (calls in the goroutine of `Execute`
-    are allowed), and every schedule afterwards: each goroutine executes at most the one operation it had in
+/-- **At most one operation after stop** (partial: `Dom`, the knowingly open case F09-5 only). For EVERY program — run
+    lists with global initialisers and init functions, functions compiled by a plain `Eval`, function values of the
+    evaluation called or started in any goroutine or by native code —, every schedule before the cancellation, a
+    cancellation at ANY moment at which no call / `go` of a function value of an EARLIER evaluation is in flight, and
+    every schedule afterwards: each goroutine executes at most the one operation it had in
     flight (and makes at most that one host call), every goroutine terminates and `Execute` reaches the end of its
     run list without running anything, the call returns `ctx.Err()`. -/
 theorem at_most_one_op_after_stop_partial (id rootId : Nat) (entries : List Entry) (pre : List Choice)
@@ -209,20 +219,24 @@ theorem at_most_one_op_after_stop_partial (id rootId : Nat) (entries : List Entr
   exact stops_everything_of expected_sound id rootId entries pre hroot hw hc hdom
 
 /-- non-vacuity: a run list of three entries; the cancellation arrives in the SECOND one (an init function), while
-    it has a call of a closure of an earlier evaluation in flight (in the goroutine of `Execute`: allowed); a
-    goroutine started by a global initialiser is blocked in a receive compiled by a plain `Eval`; `main` is pending -/
+    it has a call of a closure in flight; a second goroutine, started by a global initialiser through a function
+    literal, has a late native callback in flight (the F09-3 situation), a third one is blocked in a receive compiled
+    by a plain `Eval`; `main` is pending -/
 def exEntries : List Entry :=
-  [{ root := true, prog := .spawn .call (.step (.block .recv false .done)) (.step .done) },
-   { root := false, prog := .tick (.call .earlier (.step (.block .select true .done)) (.step (.tick .done))) },
+  [{ root := true, prog := .spawn .call (.step (.block .recv false .done))
+                       (.spawn .closure (.step (.call .wrapperLate (.tick .done) (.step .done))) (.step .done)) },
+   { root := false, prog := .tick (.call .closure (.step (.block .select true .done)) (.step (.tick .done))) },
    { root := false, prog := .tick (.step .done) }]
 def exPre : List Choice :=
-  [.run 0, .run 0, .run 0, .run 1, .run 1, .run 1, .run 1, .run 1, .run 0, .run 0, .run 0, .run 0, .run 0, .run 0, .run 0]
+  [.run 0, .run 0, .run 0, .run 1, .run 1, .run 1, .run 1, .run 1, .run 0, .run 0, .run 2, .run 2, .run 2, .run 2,
+   .run 0, .run 0, .run 0, .run 0, .run 0, .run 0, .run 0]
 example :
     let σ1 := runSched Generated.C09.facts (start Generated.C09.facts 0 0 exEntries) exPre
-    σ1.watching = true ∧ Dom Generated.C09.facts σ1 = true ∧ armedOf σ1 0 = true ∧ σ1.runList.length = 1 ∧
-      (σ1.gs[1]?.map (·.blocked)) = some (some (.recv, true)) ∧ opsOf σ1 0 = 3 ∧
+    σ1.watching = true ∧ Dom Generated.C09.facts σ1 = true ∧ armedOf σ1 0 = true ∧ armedOf σ1 2 = true ∧ σ1.runList.length = 1 ∧
+      (σ1.gs[1]?.map (·.blocked)) = some (some (.recv, true)) ∧
       (σ1.gs[0]?.map (fun g => g.stack.head?.map (·.pc))) =
-        some (some (.call .earlier (.step (.block .select true .done)) (.step (.tick .done)))) := by
+        some (some (.call .closure (.step (.block .select true .done)) (.step (.tick .done)))) ∧
+      (σ1.gs[2]?.map (fun g => g.stack.head?.map (·.pc))) = some (some (.call .wrapperLate (.tick .done) (.step .done))) := by
   decide
 
 /-- **The call returns the context's error**, whatever the program is doing and wherever `Execute` is: once the
@@ -245,12 +259,12 @@ def f09Entries : List Entry :=
 def f09Pre : List Choice := [.run 0, .run 0, .run 0, .run 0, .run 0, .run 0]
 
 /-- F09 repaired (c403bf5): only the operation in flight runs; `Execute` walks the two pending entries without
-    executing anything and returns (its deferred refresh gives the root frame the new id) -/
+    executing anything and returns (the root frame stays stale: nothing refreshes it any more) -/
 theorem cancel_during_init_stops :
     let σ1 := runSched Generated.C09.facts (start Generated.C09.facts 0 0 f09Entries) f09Pre
     let σ3 := runSched Generated.C09.facts (stepC Generated.C09.facts σ1 .stop) (List.replicate 20 (.run 0))
     σ1.watching = true ∧ σ1.runList.length = 2 ∧ opsOf σ1 0 = 2 ∧ armedOf σ1 0 = true ∧
-      opsOf σ3 0 = 3 ∧ ticksOf σ3 0 = 0 ∧ σ3.runList = [] ∧ (σ3.gs[0]?.map finished) = some true ∧ σ3.rootId = σ3.id := by
+      opsOf σ3 0 = 3 ∧ ticksOf σ3 0 = 0 ∧ σ3.runList = [] ∧ (σ3.gs[0]?.map finished) = some true ∧ σ3.rootId < σ3.id := by
   decide
 
 /-- F09 before the repair (`interp.run` gave every entry the interpreter's current id): `init` and `main` still ran -/
@@ -314,58 +328,100 @@ theorem full_statement_false_old : ¬ C09_full_statement Expected.C09.oldFacts :
   revert this
   decide
 
-/-! ### what `Dom` excludes now (F09-3) -/
+/-! ### F09-3 (repaired by dc95f3e): regressions on the extracted facts, witnesses on the facts of round 2 -/
 
-/-- F09-3. `main` has `go func() { tick; step; tick }()` in flight when the context is cancelled. -/
+/-- `main` has `go func() { tick; step; tick }()` in flight when the context is cancelled. -/
 def f093Entries : List Entry :=
   [{ root := false, prog := .step (.spawn .closure (.tick (.step (.tick .done))) .done) }]
 def f093Pre : List Choice := [.run 0, .run 0, .run 0, .run 0]
+def f093Post : List Choice := [.run 0, .run 0, .run 0, .run 1, .run 1, .run 1, .run 1, .run 1, .run 1, .run 1]
+def f093Post' : List Choice := [.run 0, .run 1, .run 0, .run 0, .run 1, .run 1, .run 1, .run 1, .run 1, .run 1]
 
-/-- F09-3: the `go` statement in flight is executed; `Execute` returns (its deferred refresh gives the root frame the
-    new id) before the new goroutine makes its frame; the frame takes that id: the whole goroutine runs, two host
-    calls included, after the cancellation. Had the goroutine made its frame first (second schedule), it would have
-    been stale. -/
-theorem funcvalue_in_flight_witness :
+/-- F09-3 repaired: whether `Execute` returns before or after the new goroutine makes its frame, the function literal
+    belongs to the cancelled epoch: the frame gets the dead id, nothing runs. The state is inside `Dom`. -/
+theorem funcvalue_in_flight_stops :
     let F := Generated.C09.facts
     let σ1 := runSched F (start F 0 0 f093Entries) f093Pre
-    let σ3 := runSched F (stepC F σ1 .stop) [.run 0, .run 0, .run 0, .run 1, .run 1, .run 1, .run 1, .run 1, .run 1, .run 1]
-    let σ3' := runSched F (stepC F σ1 .stop) [.run 0, .run 1, .run 0, .run 0, .run 1, .run 1, .run 1, .run 1, .run 1, .run 1]
-    σ1.watching = true ∧ Dom F σ1 = false ∧ armedOf σ1 0 = true ∧ σ1.gs.length = 1 ∧
-      σ3.ret = some .ctxErr ∧ opsOf σ3 1 = 3 ∧ ticksOf σ3 1 = 2 ∧
-      opsOf σ3' 1 = 0 ∧ ticksOf σ3' 1 = 0 := by
+    let σ3 := runSched F (stepC F σ1 .stop) f093Post
+    let σ3' := runSched F (stepC F σ1 .stop) f093Post'
+    σ1.watching = true ∧ Dom F σ1 = true ∧ armedOf σ1 0 = true ∧ σ3.ret = some .ctxErr ∧
+      opsOf σ3 1 = 0 ∧ ticksOf σ3 1 = 0 ∧ (σ3.gs[1]?.map finished) = some true ∧ opsOf σ3' 1 = 0 ∧ (σ3'.gs[1]?.map finished) = some true := by
   decide
 
-/-- F09-3 without any race: native code started by the evaluation (a timer, a handler) calls an interpreted function
-    back. The goroutine of `Execute` is blocked in a receive; a second goroutine has the call of the wrapper in flight. -/
+/-- F09-3 with the facts of round 2 (root id, refreshed when `Execute` returns): the whole goroutine ran when `Execute`
+    returned first -/
+theorem funcvalue_in_flight_witness_round2 :
+    let F := Expected.C09.round2Facts
+    let σ1 := runSched F (start F 0 0 f093Entries) f093Pre
+    let σ3 := runSched F (stepC F σ1 .stop) f093Post
+    let σ3' := runSched F (stepC F σ1 .stop) f093Post'
+    σ1.watching = true ∧ σ3.ret = some .ctxErr ∧ opsOf σ3 1 = 3 ∧ ticksOf σ3 1 = 2 ∧ opsOf σ3' 1 = 0 ∧ ticksOf σ3' 1 = 0 := by
+  decide
+
+/-- native code started by the evaluation (a timer, a handler) calls an interpreted function back. The goroutine of
+    `Execute` is blocked in a receive; a second goroutine has the call of the wrapper in flight. -/
 def f093LateEntries : List Entry :=
   [{ root := false, prog := .spawn .call (.step (.call .wrapperLate (.tick (.step .done)) (.step .done))) (.block .recv true .done) }]
 def f093LatePre : List Choice := [.run 0, .run 0, .run 0, .run 0, .run 0, .run 1, .run 1, .run 1, .run 1]
+def f093LatePost : List Choice := [.run 0, .run 0, .run 1, .run 1, .run 1, .run 1, .run 1, .run 1, .run 1, .run 1]
 
-/-- the cancellation releases the blocked `Execute`, which returns (the root frame takes the new id); the callback
-    that arrives afterwards gets that id: its body runs, host call included. When the callback arrives first (second
-    schedule) it is stale. -/
-theorem late_native_callback_witness :
+/-- F09-3 repaired: the callback that arrives after `Execute` has returned gets the dead id: only the call in flight is
+    executed, its body runs nothing -/
+theorem late_native_callback_stops :
     let F := Generated.C09.facts
     let σ1 := runSched F (start F 0 0 f093LateEntries) f093LatePre
-    let σ3 := runSched F (stepC F σ1 .stop) [.run 0, .run 0, .run 1, .run 1, .run 1, .run 1, .run 1, .run 1, .run 1, .run 1]
-    let σ3' := runSched F (stepC F σ1 .stop) [.run 1, .run 0, .run 0, .run 1, .run 1, .run 1, .run 1, .run 1, .run 1, .run 1]
-    σ1.watching = true ∧ Dom F σ1 = false ∧ armedOf σ1 1 = true ∧ opsOf σ1 1 = 1 ∧ ticksOf σ1 1 = 0 ∧
-      (σ1.gs[0]?.map (·.blocked)) = some (some (.recv, true)) ∧
-      opsOf σ3 1 = 4 ∧ ticksOf σ3 1 = 1 ∧ opsOf σ3' 1 = 2 ∧ ticksOf σ3' 1 = 0 := by
+    let σ3 := runSched F (stepC F σ1 .stop) f093LatePost
+    σ1.watching = true ∧ Dom F σ1 = true ∧ armedOf σ1 1 = true ∧ opsOf σ1 1 = 1 ∧
+      (σ1.gs[0]?.map (·.blocked)) = some (some (.recv, true)) ∧ opsOf σ3 1 = 2 ∧ ticksOf σ3 1 = 0 ∧ (σ3.gs[1]?.map finished) = some true := by
   decide
 
-/-- the full-strength statement is false for the interpreter as it is (F09-3) -/
+theorem late_native_callback_witness_round2 :
+    let F := Expected.C09.round2Facts
+    let σ1 := runSched F (start F 0 0 f093LateEntries) f093LatePre
+    let σ3 := runSched F (stepC F σ1 .stop) f093LatePost
+    σ1.watching = true ∧ armedOf σ1 1 = true ∧ opsOf σ1 1 = 1 ∧ ticksOf σ1 1 = 0 ∧ opsOf σ3 1 = 4 ∧ ticksOf σ3 1 = 1 := by
+  decide
+
+theorem full_statement_false_round2 : ¬ C09_full_statement Expected.C09.round2Facts := by
+  intro h
+  have := (h 0 0 f093Entries f093Pre (Nat.le_refl 0) (by decide) f093Post).1 1
+  revert this
+  decide
+
+/-! ### what `Dom` excludes now (F09-5, knowingly left open by dc95f3e) -/
+
+/-- F09-5. `main` has the call of a closure made by an EARLIER, completed evaluation in flight when the context is
+    cancelled; the closure makes a host call, calls a function literal of its own (host call inside) and goes on. -/
+def f095Entries : List Entry :=
+  [{ root := false, prog := .step (.call .earlier (.tick (.call .closure (.step (.tick .done)) (.step .done))) (.step .done)) }]
+def f095Pre : List Choice := [.run 0, .run 0, .run 0, .run 0]
+
+/-- F09-5: the epoch of the closure is not cancelled (`stop()` marks the running epochs): its frame gets the NEW id, its
+    whole body runs after the cancellation, the literal it makes included (it inherits the epoch), two host calls;
+    only the caller, stale, stops when the closure returns. With the facts of round 2 the same call was stale (it was
+    in the goroutine of `Execute`, which had not returned). -/
+theorem earlier_funcvalue_in_flight_witness :
+    let F := Generated.C09.facts
+    let σ1 := runSched F (start F 0 0 f095Entries) f095Pre
+    let σ3 := runSched F (stepC F σ1 .stop) (List.replicate 20 (.run 0))
+    let R := Expected.C09.round2Facts
+    let ρ3 := runSched R (stepC R (runSched R (start R 0 0 f095Entries) f095Pre) .stop) (List.replicate 20 (.run 0))
+    σ1.watching = true ∧ Dom F σ1 = false ∧ armedOf σ1 0 = true ∧ opsOf σ1 0 = 1 ∧
+      σ3.ret = some .ctxErr ∧ opsOf σ3 0 = 7 ∧ ticksOf σ3 0 = 2 ∧ opsOf ρ3 0 = 2 ∧ ticksOf ρ3 0 = 0 := by
+  decide
+
+/-- the full-strength statement is false for the interpreter as it is (F09-5) -/
 theorem full_statement_false : ¬ C09_full_statement Generated.C09.facts := by
   intro h
-  have := (h 0 0 f093Entries f093Pre (Nat.le_refl 0) (by decide)
-    [.run 0, .run 0, .run 0, .run 1, .run 1, .run 1, .run 1, .run 1, .run 1, .run 1]).1 1
+  have := (h 0 0 f095Entries f095Pre (Nat.le_refl 0) (by decide) (List.replicate 20 (.run 0))).1 0
   revert this
   decide
 
 /-! ### the specification -/
 
 theorem ideal_all_cancellable (p : Prog) : p.canc Expected.C09.ideal = true := by
-  have hcur : ∀ s, childCur Expected.C09.ideal s true true = true := by intro s; cases s <;> rfl
+  have hcur : ∀ s, childCur Expected.C09.ideal s true true true = true := by
+    intro s; obtain ⟨k, e, l⟩ := s; cases k <;> rfl
   induction p with
   | done => rfl
   | step p ih => simpa [Prog.canc] using ih
@@ -378,7 +434,8 @@ theorem ideal_all_cancellable (p : Prog) : p.canc Expected.C09.ideal = true := b
     cases k <;> cases c <;> rfl
 
 theorem ideal_dom (σ : St) : Dom Expected.C09.ideal σ = true := by
-  have hs : ∀ s, fvSite Expected.C09.ideal s = false := by intro s; cases s <;> rfl
+  have hs : ∀ s, fvSite Expected.C09.ideal s = false := by
+    intro s; obtain ⟨k, e, l⟩ := s; cases k <;> rfl
   simp only [Dom, List.all_eq_true]
   intro g _
   obtain ⟨stack, armed, blocked, ops, ticks, main, pending⟩ := g
@@ -386,15 +443,15 @@ theorem ideal_dom (σ : St) : Dom Expected.C09.ideal σ = true := by
   | some pd =>
     cases stack with
     | nil => simp [G.fvPending, hs]
-    | cons fr rest => obtain ⟨fid, pc, fcur⟩ := fr; cases pc <;> simp [G.fvPending, hs]
+    | cons fr rest => obtain ⟨fid, pc, fcur, fearly⟩ := fr; cases pc <;> simp [G.fvPending, hs]
   | none =>
     cases stack with
     | nil => simp [G.fvPending]
-    | cons fr rest => obtain ⟨fid, pc, fcur⟩ := fr; cases pc <;> simp [G.fvPending, hs]
+    | cons fr rest => obtain ⟨fid, pc, fcur, fearly⟩ := fr; cases pc <;> simp [G.fvPending, hs]
 
-/-- **With one more repair the statement holds at full strength**: if the frame of a call of a function value made
-    by an operation of a frame took that frame's id (`Expected.C09.ideal`, the specification column of the
-    correspondence): every program, every schedule, every moment. -/
+/-- **What the property demands holds at full strength for the specification**: if the frame of a call of a function
+    value made by an operation of a frame took that frame's id, whichever evaluation made the function value
+    (`Expected.C09.ideal`, the specification column of the correspondence): every program, every schedule, every moment. -/
 theorem ideal_full : C09_full_statement Expected.C09.ideal := by
   intro id rootId entries pre hroot hw
   exact stops_everything_of ideal_sound id rootId entries pre hroot hw
